@@ -200,6 +200,23 @@ def handle (line : String) : String :=
       | some vd => match exitStatus exitCfg t vd with | some s => s!"status {s}" | none => "no-such-path"
       | none => "bad-op"
     | none => "bad-op"
+  | ["exitdisc", b, p1, p2, p3] =>
+    -- phases: comma separated tokens, letter W/E/X/D (severity), then s (with symbol) or p (plain), optional f (buffer full); "-" = nothing
+    let codeOf (sev : Nat) : Nat :=
+      ((List.range exitDiscCfg.sevs.length).find? (fun i => i != exitDiscCfg.subordinate && exitDiscCfg.sevs.getD i 0 == sev)).getD 0
+    let evOf (t : String) : Option Ev :=
+      match t.toList with
+      | l :: m :: rest =>
+        let sev := match l with | 'W' => some 0 | 'E' => some exitDiscCfg.sevError | 'X' => some exitDiscCfg.sevExit | 'D' => some exitDiscCfg.sevDump | _ => none
+        sev.map (fun sv => ⟨codeOf sv, m == 's', rest == ['f']⟩)
+      | _ => none
+    let phase (p : String) : List Ev := if p == "-" then [] else (p.splitOn ",").filterMap evOf
+    match runMain exitDiscCfg (b == "1") (fun _ => true) (phase p1) (phase p2) (phase p3) with
+    | (st, some (.exited n)) => s!"exit {n} printed {st.printed} pending {st.pending} trailer {st.trailer} err {st.errIssued}"
+    | (st, some .aborted) => s!"abort printed {st.printed} pending {st.pending}"
+    | (_, none) => "no-end"
+  | ["exitsites"] =>
+    s!"fallback={usageFallback} sites={exitSites.map (fun x => (x.1, x.2.1, x.2.2))}"
   | ["config"] =>
     s!"remarkCap={remarkCap} scopeCap={scopeCfg.cap} scopeGuard={scopeCfg.guard} maxErrors={errCfg.maxErrors} " ++
     s!"wrapCap={wrapFmt.cap} lineCap={lineCfg.cap} exprCap={exprLenCfg.cap} caseCap={(caseFns.map (·.2.cap))}"
